@@ -98,6 +98,11 @@ def CT.stepLine (s : CT) (toks : List String) : CT × String :=
     match i.toNat? with
     | some i => let s' := s.step (.monitor i); (s', s!"{s.mons.length} {s'.counter}")
     | none => (s, "bad-op")
+  | ["monmany", i, k] =>
+    match i.toNat?, k.toNat? with
+    | some i, some k =>
+      let s' := s.run (List.replicate k (.monitor i)); (s', s!"{s'.mons.length} {s'.counter}")
+    | _, _ => (s, "bad-op")
   | ["unmon", j] =>
     match j.toNat? with
     | some j => let s' := s.step (.unmonitor j); (s', toString s'.counter)
@@ -267,6 +272,6 @@ def WG.run (s : WG) : List WGOp → WG
   | op :: ops => WG.run (s.step op) ops
 
 def WG.show (s : WG) : String :=
-  s!"pending={showSet (fun x => s.pending.contains x)} trig={showBool s.trig}"
+  s!"pending={showOrSums s.pending} trig={showBool s.trig}"
 
 end Hive.Derived
